@@ -664,3 +664,83 @@ def c13_pipeline_recount(tier, rng):
                 "obligation": "C13.pipeline_recount", "inputs": {"seed": base + k}, "observed": p[:4], "required": "tables equal the recount",
                 "replay_call": "contracts.c_profiles:replay_pipeline_recount"}]}
     return {"cases": n, "bound": "%d pipeline runs x 4 generated loci (%d table rows recounted)" % (n, rows), "violations": [], "samples": [{"seed": base, "rows": rows}]}
+
+
+# ---- the exon / intron tables as written: grouped rows partition the ungrouped ones ---------------------------------------------------------------
+def _dump_rows_problems(seed):
+    """the real ExonCounter pair of a run with read groups (one counter ignoring the groups, one keeping them) fed with the same random
+    profiles through add_read_info_from_profile, then dump(): every (feature, group) with a read including or skipping the feature has its
+    row with the recounted numbers, no other row exists, and the rows of a feature sum to its row in the ungrouped table"""
+    import os, random, shutil, tempfile, types
+    lrc = native.repo_import("src/long_read_counter.py")
+    rng = random.Random(seed)
+    base = os.path.join(os.path.dirname(os.path.dirname(os.path.abspath(__file__))), ".run")
+    os.makedirs(base, exist_ok=True)
+    d = tempfile.mkdtemp(prefix="dump", dir=base)
+    problems = []
+    try:
+        plain = lrc.ExonCounter(os.path.join(d, "p.exon"), ignore_read_groups=True)
+        grouped = lrc.ExonCounter(os.path.join(d, "g.exon"), ignore_read_groups=False)
+        nf = rng.randint(1, 6)
+        fmap = [types.SimpleNamespace(id=("chr1", 100 * i, 100 * i + 50, "+"), to_str=(lambda i=i: "chr1\t%d\t%d\t+\tX\tG" % (100 * i, 100 * i + 50))) for i in range(nf)]
+        groups = ["g%s" % c for c in "abcd"[:rng.randint(1, 4)]]
+        want = {}
+        for _ in range(rng.randint(1, 10)):
+            g = rng.choice(groups)
+            prof = [rng.choice([-2, -1, 0, 0, 1, 1]) if rng.random() < .6 else 0 for _ in range(nf)]
+            plain.add_read_info_from_profile(prof, fmap, "NA")
+            grouped.add_read_info_from_profile(prof, fmap, g)
+            for i, v in enumerate(prof):
+                if v in (1, -1):
+                    w = want.setdefault((100 * i, g), [0, 0])
+                    w[0 if v == 1 else 1] += 1
+        plain.dump()
+        grouped.dump()
+
+        def rows(path):
+            out = {}
+            for line in open(path):
+                if line.startswith("#"):
+                    continue
+                f = line.rstrip("\n").split("\t")
+                key = (int(f[1]), f[6])
+                if key in out:
+                    problems.append("row %s written twice" % (key,))
+                out[key] = [int(f[7]), int(f[8])]
+            return out
+        got = rows(grouped.output_counts_file_name)
+        tot = rows(plain.output_counts_file_name)
+        if got != want:
+            problems.append("grouped table %s, recount %s" % (sorted(got.items()), sorted(want.items())))
+        sums = {}
+        for (f, g), v in got.items():
+            s = sums.setdefault(f, [0, 0])
+            s[0] += v[0]; s[1] += v[1]
+        if sums != {f: v for (f, _g), v in tot.items()}:
+            problems.append("rows of the groups sum to %s, the ungrouped table has %s" % (sorted(sums.items()), sorted(tot.items())))
+    finally:
+        shutil.rmtree(d, ignore_errors=True)
+    return problems
+
+
+def replay_dump_rows(d):
+    p = _dump_rows_problems(d["inputs"]["seed"])
+    return (not p), "seed %s: %s" % (d["inputs"]["seed"], p[:2] or "grouped rows = recount, sums = ungrouped table")
+
+
+@bounded("C13.grouped_rows", ["C13", "C09"], note="the real ExonCounter with and without read groups on the same random profiles (1-6 features, 1-4 groups, "
+         "1-10 reads), dump() of both: the grouped table has exactly the (feature, group) rows of the recount, and the rows of a feature sum "
+         "to its row in the ungrouped table")
+def c13_grouped_rows(tier, rng):
+    n = 300 if tier == "quick" else 10000
+    base = rng.randrange(10 ** 9)
+    for k in range(n):
+        try:
+            p = _dump_rows_problems(base + k)
+        except Exception as e:
+            p = ["exception %s: %s" % (type(e).__name__, e)]
+        if p:
+            return {"cases": k + 1, "bound": "%d counters" % n, "violations": [{
+                "obligation": "C13.grouped_rows", "inputs": {"seed": base + k}, "observed": p[:3],
+                "required": "grouped rows partition the ungrouped counts", "replay_call": "contracts.c_profiles:replay_dump_rows"}]}
+    return {"cases": n, "bound": "%d random counter pairs" % n, "violations": [], "samples": [{"seed": base}]}
